@@ -45,6 +45,12 @@ type upTarget struct {
 	attempts         []string
 	cuts             []int
 	states           []string
+	// wave d: the whole history as events ("c<k>" attempt cut after k bytes, "a0"/"a1" request without a transfer,
+	// "t…"/"i…" time passing, appended by the pre hook) and what the implementation showed at each of them
+	// ("<reply> > <final> <partial>" read back from disk / "<reply>"); compared with the model's `uphist`
+	pre    func(step string)
+	events []string
+	obs    []string
 }
 
 func (u *upTarget) describe() {
@@ -147,6 +153,9 @@ func (u *upTarget) observe(step string) {
 // server how to proceed exactly as a client would: resume when a partial file is believed to exist.
 func (u *upTarget) attempt(cut int, forceResumeAsk bool) bool {
 	c := u.c
+	if u.pre != nil {
+		u.pre("attempt")
+	}
 	*u.id++
 	resume := u.incLen >= 0 || forceResumeAsk
 	fields := []hotline.Field{fld(hotline.FieldFileName, u.reqName)}
@@ -212,6 +221,8 @@ func (u *upTarget) attempt(cut int, forceResumeAsk bool) bool {
 	if impl == "noreply" && resume {
 		// no partial file to resume: the client starts over with a fresh request
 		u.attempts = append(u.attempts, "resume-ask:noreply")
+		u.events = append(u.events, "a1")
+		u.obs = append(u.obs, "noreply")
 		if u.incLen >= 0 {
 			return false
 		}
@@ -235,6 +246,7 @@ func (u *upTarget) attempt(cut int, forceResumeAsk bool) bool {
 	dlen := len(u.data) - offset
 	u.attempts = append(u.attempts, fmt.Sprintf("%s@%d cut=%d/%d", map[bool]string{true: "resume", false: "fresh"}[resume], offset, len(conn), full))
 	u.cuts = append(u.cuts, len(conn))
+	u.events = append(u.events, fmt.Sprintf("c%d", len(conn)))
 	dc := newDlgConn(conn, randSegs(c.R), nil)
 	x := u.set.start(ref, dc)
 	if !x.waitBody() {
@@ -280,6 +292,20 @@ func (u *upTarget) attempt(cut int, forceResumeAsk bool) bool {
 	fin, hasFin := readOpt(filepath.Join(u.dir, u.name))
 	inc, hasInc := readOpt(filepath.Join(u.dir, u.name+".incomplete"))
 	step := fmt.Sprintf("after attempt %d", len(u.cuts))
+	{
+		fl, il := -1, -1
+		if hasFin {
+			fl = len(fin)
+		}
+		if hasInc {
+			il = len(inc)
+		}
+		short := impl
+		if strings.HasPrefix(impl, "ok ") {
+			short = fmt.Sprintf("ok %d", offset)
+		}
+		u.obs = append(u.obs, fmt.Sprintf("%s > %s %s", short, lenArg(fl), lenArg(il)))
+	}
 	if complete {
 		if !hasFin || !bytesEq(fin, u.data) || hasInc {
 			u.viol("complete-upload-not-published", step+": the whole stream was delivered but the final name does not hold exactly the client's bytes (or a partial file remains)")
@@ -354,8 +380,13 @@ func (u *upTarget) finish(download bool, post *[]func()) {
 	c.Corr("upload-history", strings.Join(u.states, " ; "),
 		c.AskS("uprun", "7", fmt.Sprint(u.fc), u.info.oracleArgs(), fmt.Sprint(len(u.data)), fmt.Sprint(len(u.rsrc)), strings.Join(cs, " ")), false)
 	// an existing file is never replaced: the request is refused …
+	if u.pre != nil {
+		u.pre("refusal")
+	}
 	*u.id++
 	res, _, _ := u.ts.Call(u.cc, mkTran(hotline.TranUploadFile, *u.id, fld(hotline.FieldFileName, u.reqName), fld(hotline.FieldFilePath, u.pathField), fld(hotline.FieldTransferSize, be32(3))))
+	u.events = append(u.events, "a0")
+	u.obs = append(u.obs, map[bool]string{true: "refused", false: "not-refused"}[len(res) == 1 && res[0].ErrorCode != [4]byte{}])
 	if len(res) != 1 || res[0].ErrorCode == [4]byte{} {
 		u.viol("existing-file-not-refused", "an upload request naming an existing file was not refused")
 	} else if _, has := getField(&res[0], hotline.FieldRefNum); has {
@@ -450,7 +481,7 @@ func (u *upTarget) freshRef() ([4]byte, bool) {
 
 func init() {
 	props["C09"] = func(x *Ctx) {
-		x.rule = "family upload-every-cut: one small file (0..300 data bytes, fork count 2 or 3, comment 0..40 bytes) per case, uploaded once for EVERY cut position k of its connection bytes (preamble, header, data, resource fork), each history = cut at k, resume from the reported offset to completion, second upload refused, every 8th followed by a download. family upload-histories: files of 0..256 KiB (thorough: up to 2 MiB), 1..5 cuts drawn from the boundary set {0,15,16,17, header start/INFO/DATA boundaries ±1, data start ±1, mid-data, data end ±1, fork header ±1, end-1} and uniformly random positions, random read segmentation, with and without PreserveResourceForks, then uncut resume, stale-reference transfer, refusal, two downloads. After every attempt both names are read back. non-trivial = an attempt that delivered at least one data-fork byte; distinct = distinct (data length, fork count, resource length, resume offset, cut position, preserve flag)"
+		x.rule = "family upload-every-cut: one small file (0..300 data bytes, fork count 2 or 3, comment 0..40 bytes) per case, uploaded once for EVERY cut position k of its connection bytes (preamble, header, data, resource fork), each history = cut at k, resume from the reported offset to completion, second upload refused, every 8th followed by a download. family upload-histories: files of 0..256 KiB (thorough: up to 2 MiB), 1..5 cuts drawn from the boundary set {0,15,16,17, header start/INFO/DATA boundaries ±1, data start ±1, mid-data, data end ±1, fork header ±1, end-1} and uniformly random positions, random read segmentation, with and without PreserveResourceForks, then uncut resume, stale-reference transfer, refusal, two downloads. family upload-aged-histories: 6 targets per case (40..70000 data bytes), 2..6 cuts in a row (75 % strictly inside the remaining data fork so that the partial file grows from resume to resume, the rest from the boundary set), before EVERY request the modification times of <name>.incomplete, <name>, the folder and the side files are moved (each with its own probability) to an age from {0,1,4,5,6,9,11,29,31,59,61,301,3601,86401,40000000 s, 1 h in the future} or nothing passes at all (25 %), 30 % of the attempts are followed by a request whose transfer never starts; every resume offset is judged against the partial file's size on disk at that moment and the whole history is compared event by event with the model's upHistory. After every attempt both names are read back. non-trivial = an attempt that delivered at least one data-fork byte; distinct = distinct (data length, fork count, resource length, resume offset, cut position, preserve flag)"
 		x.assume = []string{
 			"a client that restarts from zero without asking to resume while a partial file exists is outside the property's quantifier (the server appends); not generated",
 			"file contents are pseudo-random so that a shifted, repeated or dropped block changes the comparison",
@@ -463,6 +494,8 @@ func init() {
 		x.Add(&Family{Name: "incomplete-suffix-witness", Quick: 2, Thor: 4, Run: runC09SuffixWitness})
 		x.Add(&Family{Name: "name-too-long-witness", Quick: 3, Thor: 4, Run: runC09NameTooLong})
 		x.Add(&Family{Name: "upload-histories", Quick: 48, Thor: 480, Run: runC09Histories})
+		// wave d: multi-cut histories with time passing (modification times moved) between the requests — c09_aged.go
+		x.Add(&Family{Name: "upload-aged-histories", Quick: 14, Thor: 200, Run: runC09Aged})
 	}
 }
 
